@@ -230,6 +230,18 @@ def run(ctx):
             reqs.append(r)
             oracle.add_same(r, w2)
             nmut += 1
+    # strings that are not UTF-8 (Latin-1 file names, lone continuation bytes, truncated sequences, overlong forms): the
+    # loader may reject them, but an accepted binary must come back with the very same string words
+    sv = g.vix["LiteralString"]
+    for raw in (b"caf\xe9.glsl", b"\xff", b"ab\x80", b"\xc3", b"\xe2\x82", b"\xc0\xaf", b"\xed\xa0\x80", b"\xf4\x90\x80\x80", b"ok\xc3\xa9", b"abc\xfe\xffd"):
+        for name, mk in (("String", lambda b: instgen.Inst(g.opv["String"], "String", None, 1, [instgen.Op("s", sv, list(b))])),
+                         ("Name", lambda b: instgen.Inst(g.opv["Name"], "Name", None, None, [instgen.Op("w", g.vix["IdRef"], 1), instgen.Op("s", sv, list(b))])),
+                         ("Extension", lambda b: instgen.Inst(g.opv["Extension"], "Extension", None, None, [instgen.Op("s", sv, list(b))]))):
+            w2 = instgen.header(version=0x00010300, bound=40) + mk(raw).words()
+            r = "loadasm " + instgen.to_bytes(w2).hex()
+            reqs.append(r)
+            oracle.add_same(r, w2)
+            nmut += 1
     stats["operand-word mutants"] = nmut
     # the recorded finding: a parameter after the function's first label is filed in front of the blocks
     E = {r["name"]: r for r in g.core}
